@@ -35,11 +35,16 @@ type Config struct {
 	// followed by calls on a healthy store: the only deviation events are a caller giving up (C<i>, T<i>) and
 	// the batch answer AA; submissions through the asynchronous API (S<i>a: no deadline at all) are default
 	// events like plain ones; the server never drops a stream, no write fails, nothing is closed.
+	// Part "C" = the request-collapse layer on a scripted store (collapse.go); Grid names its request shapes.
 	Part string `json:"part,omitempty"`
+	Grid string `json:"grid,omitempty"`
 }
 
 func (c Config) String() string {
 	s := fmt.Sprintf("callers=%d,F<=%d,conns=%d,limit=%d,variants=%v,stale=%v,addrx=%v", c.Callers, c.MaxF, c.Conns, c.Limit, c.Variants, c.Stale, c.AddrX)
+	if c.Part == "C" {
+		return fmt.Sprintf("part=C,callers=%d,F<=%d,grid=%s", c.Callers, c.MaxF, c.Grid)
+	}
 	if c.Part != "" {
 		s = "part=" + c.Part + "," + s
 	}
@@ -76,6 +81,9 @@ func eventCost(e string) int {
 	case strings.HasPrefix(e, "A:"):
 		return 0
 	case strings.HasPrefix(e, "S"):
+		if strings.IndexByte(e, ':') > 0 {
+			return 0 // part C: which request and which API a caller uses is part of the enumeration, not a deviation
+		}
 		if c := e[len(e)-1]; c >= '0' && c <= '9' {
 			return 0
 		}
@@ -516,6 +524,12 @@ func errClass(err error) string {
 
 func eventKind(e string) string {
 	if i := strings.IndexByte(e, ':'); i >= 0 {
+		if e[0] == 'S' { // part C: S<i>:<shape> / S<i>a:<shape>
+			if e[i-1] == 'a' {
+				return "Sa"
+			}
+			return "S"
+		}
 		return e[:i]
 	}
 	if e == "X" || e == "XA" || e == "final-close" || e == "NS" {
@@ -824,7 +838,8 @@ var strictWake = os.Getenv("VERIF_C18_STRICT_WAKE") != ""
 func livenessKey(k string) bool {
 	return strings.HasPrefix(k, "stuck/sync/") || strings.HasPrefix(k, "stuck/async/") ||
 		strings.HasPrefix(k, "request-never-sent:healthy-stream/") || strings.HasPrefix(k, "call-never-returns:healthy-stream/") ||
-		strings.HasPrefix(k, "slot-accounting:healthy-stream/")
+		strings.HasPrefix(k, "slot-accounting:healthy-stream/") ||
+		strings.HasPrefix(k, "collapse:stuck/") || strings.HasPrefix(k, "collapse:request-never-reached-store/")
 }
 
 func branchable(vs []viol) bool {
@@ -842,7 +857,10 @@ func onlyStuck(vs []viol) bool {
 	for _, v := range vs {
 		// (a difference in the slot accounting is local: the execution goes on, so that the calls that follow show
 		// what a caller can see of it)
-		if !strings.HasPrefix(v.Key, "stuck/sync/") && !strings.HasPrefix(v.Key, "stuck/async/") && !strings.HasPrefix(v.Key, "slot-accounting:healthy-stream/") {
+		// (part C: a request that never reached the store is reported at the submission; the execution goes on so that
+		// the response its caller is handed later is judged too)
+		if !strings.HasPrefix(v.Key, "stuck/sync/") && !strings.HasPrefix(v.Key, "stuck/async/") && !strings.HasPrefix(v.Key, "slot-accounting:healthy-stream/") &&
+			!strings.HasPrefix(v.Key, "collapse:stuck/") && !strings.HasPrefix(v.Key, "collapse:request-never-reached-store/") {
 			return false
 		}
 	}
@@ -913,6 +931,7 @@ type trace struct {
 	FollowUps       int      // submissions made after at least one such late answer
 	AcctChecks      int
 	SendChecks      int
+	PartC           map[string]int // part C: counters / per-execution facts (0 or 1) for the coverage report
 }
 
 var stateDump map[string]struct{} // diagnostics (VERIF_C18_DUMPSTATES)
@@ -961,6 +980,9 @@ func outcomeOf(w *world, o *obs) string {
 // first enabled event until nothing is enabled. It then runs the epilogues (drain of a healthy store:
 // nobody may stay without result; Close: nobody may stay blocked) and tears the world down.
 func runOne(cfg Config, prefix []string, stopAtPrefix bool) *trace {
+	if cfg.Part == "C" {
+		return runOneC(cfg, prefix, stopAtPrefix)
+	}
 	t := &trace{}
 	applyConfig(cfg)
 	t.logMark = panicLogCount()
@@ -1257,6 +1279,7 @@ type subtreeResult struct {
 	ExecLateFull   int                 `json:"exec_late_full"`   // ... with >= limit late answers (finite limit) and a further submission
 	AcctChecks     int                 `json:"acct_checks"`
 	SendChecks     int                 `json:"send_checks"`
+	PartC          map[string]int      `json:"part_c,omitempty"`
 
 	WallMs    int64    `json:"wall_ms"`
 	SlowestMs int64    `json:"slowest_ms"`
@@ -1283,6 +1306,16 @@ func (r *subtreeResult) account(cfg Config, t *trace, states map[uint64]struct{}
 	r.LateAnswers += t.LateAnswers
 	r.AcctChecks += t.AcctChecks
 	r.SendChecks += t.SendChecks
+	if cfg.Part == "C" {
+		if r.PartC == nil {
+			r.PartC = map[string]int{}
+		}
+		r.PartC["executions"]++
+		r.PartC["events"] += len(t.Events)
+		for k, v := range t.PartC {
+			r.PartC[k] += v
+		}
+	}
 	if t.LateAnswers > 0 {
 		r.ExecLate++
 		if t.FollowUps > 0 {
